@@ -96,6 +96,8 @@ func verifCustomProfiles(root string) {
 	}
 	derive("verifoff", "  anthropic_support:\n    enabled: true", "  anthropic_support:\n    enabled: false")
 	derive("verifnoc", "  openai_compatible: true", "  openai_compatible: false")
+	// a provider of its own whose name merely starts like the inclusive "openai" prefixes
+	derive("openai-verif")
 	if err := os.Chdir(dir); err != nil {
 		panic(err)
 	}
@@ -159,6 +161,9 @@ func verifBoot(engine, lb, profile string, eps []verifEndpointOpt, mod func(*con
 		typ := o.Type
 		if typ == "" {
 			typ = "openai-compatible"
+		}
+		if typ == "untyped" { // an endpoint whose configuration does not say what it is
+			typ = ""
 		}
 		prio := o.Priority
 		if prio == 0 {
